@@ -297,6 +297,17 @@ def replay_native(ob, W, stream, sanitize=True):
     return p.returncode, out, err
 
 
+def expand_key(key):
+    m = re.search(r'\{([0-9.,]+)\}', key)
+    if not m: return [key]
+    out = []
+    for part in m.group(1).split(','):
+        if '..' in part:
+            a, b = part.split('..'); out += list(range(int(a), int(b) + 1))
+        else: out.append(int(part))
+    return [key[:m.start()] + str(n) + key[m.end():] for n in out]
+
+
 def load_known():
     findings = []; fixed = []
     if os.path.exists(KNOWN):
@@ -304,7 +315,10 @@ def load_known():
             ln = ln.strip()
             if not ln or ln.startswith('#'): continue
             m = re.match(r'finding:\s+property=(\S+)\s+key=(\S+)\s+(.*)', ln)
-            if m: findings.append(dict(prop=m.group(1), key=m.group(2), text=m.group(3))); continue
+            if m:
+                # a key may enumerate instances of one obligation family explicitly: name_{0..15,25..32}:L126
+                for k in expand_key(m.group(2)): findings.append(dict(prop=m.group(1), key=k, text=m.group(3)))
+                continue
             m = re.match(r'fixed:\s+property=(\S+)\s+(\S+)\s+(.*)', ln)
             if m: fixed.append(dict(prop=m.group(1), commit=m.group(2), text=m.group(3)))
     return findings, fixed
@@ -455,7 +469,7 @@ def main():
         print('replay did not reproduce the violation on the current tree'); sys.exit(0)
     obs = [o.for_tier(a.tier) for o in obs_all if a.tier in o.tiers]
     if a.only:
-        want = set(a.only.split(',')); obs = [o for o in obs if o.name in want]
+        import fnmatch; want = a.only.split(','); obs = [o for o in obs if any(fnmatch.fnmatchcase(o.name, w) for w in want)]
     for o in obs:
         for kv in a.D:
             k, _, v = kv.partition('='); o.defines[k] = v
